@@ -22,6 +22,11 @@ CHECKS = {
          "Held on every explored (program, graph) pair: all V/E-initial step sequences up to length 3 (quick) / 4 (thorough) over a 63-instance alphabet plus 2000 / 50000 random type-directed programs of length 5-9, on an 8-graph hostile library and 20 / 500 random graphs; ill-typed sequences must be rejected at compile time. Order-sensitive steps are judged by bound arithmetic and sub-multiset only. Nothing is claimed beyond the stated program lengths, alphabet and graph sizes.",
          "Trusted: the reference interpreter harness/model/traversal.go (written from the docs; where the docs are silent it adopts the literal engine behaviour, listed as assumptions in the evidence). Programs whose meaning is unspecified are not generated.",
          "5/C01 and appendix A"),
+ "C02": ("exploration",
+         "differential runtime monitor: each generated traversal is executed by the production compiler composition (IndexStartOptimize + load elision) over plain kvgraph and over a hint-honouring decorator, and literally (no optimizer, force-load decorator); canonical row multisets, count() and spelling families compared",
+         "Held on every explored (program, graph, backend): leading filter runs x data-consuming suffixes x 3 starts, all suffix pairs, 5 spelling families, 2000 / 100000 random programs, 2 graphs each; production == literal as multisets, count() == number of rows, all spellings of a label/id filter identical. No model is involved in the verdict (engine vs engine). Bounded by the program space listed in the evidence rule.",
+         "Trusted: the two harness decorators (harness/deco/graph.go, 100 lines) that force or honour the load hint; compiler, optimizer, inspect analysis, processors and Convert are the real code.",
+         "5/C02"),
 }
 
 NOT_YET = "check not built yet in this session (design in DESIGN.md section 5); claimed once the monitor exists and is silent on the unchanged tree"
